@@ -64,6 +64,15 @@ def text_reached(relfile, text, which='any'):
     return all(n in hit for n in nums) if which == 'all' else any(n in hit for n in nums)
 
 
+def text_located(relfile, text):
+    """True if some source line of kyupy/<relfile> contains `text` (False: the line was rewritten, nothing to look for)."""
+    try:
+        with open(os.path.join(_src, 'kyupy', relfile)) as f:
+            return any(text in l for l in f.read().split('\n'))
+    except OSError:
+        return False
+
+
 def summary(anchors):
     """anchors: {label: (relfile, first, last)} -> {label: 'hit/total executable-ish lines'} plus raw line lists."""
     out = {}
